@@ -70,97 +70,41 @@ def _canon(a, b, allowed):
 
 
 class _Facts:
-    """Immutable set of path facts: relations {(a, b): allowed} and constants {var: int}."""
-    __slots__ = ('rel', 'const', '_key')
+    """Path facts: a zone (difference-bound matrix, rules/zone.py) over the integer locals, parameters and integer fields.
+    Covers the two FEAS facts of DESIGN section 3 (a relation keeps its truth value until an operand is written; a local
+    assigned a literal keeps it) and their arithmetic closure (x != m-1 and x < m  =>  x+1 < m)."""
+    __slots__ = ('d',)
 
-    def __init__(self, rel=None, const=None):
-        self.rel = rel or {}
-        self.const = const or {}
-        self._key = (frozenset(self.rel.items()), frozenset(self.const.items()))
+    def __init__(self, d=None):
+        from .zone import DBM
+        self.d = d if d is not None else DBM()
 
     def key(self):
-        return self._key
-
-    def _val(self, x):
-        if x[0] == 'c':
-            return x[1]
-        return self.const.get(x[1])
+        return self.d.key()
 
     def assume(self, fn, cond, truth):
-        """Facts after taking the branch `cond == truth`, or None if that contradicts what is known."""
-        r = _relation(fn, cond)
-        if r is None:
-            return self
-        a, b, allowed = r
-        if not truth:
-            allowed = frozenset('<=>') - allowed
-        va, vb = self._val(a), self._val(b)
-        if va is not None and vb is not None:
-            actual = '<' if va < vb else ('=' if va == vb else '>')
-            return self if actual in allowed else None
-        a, b, allowed = _canon(a, b, allowed)
-        cur = self.rel.get((a, b), frozenset('<=>'))
-        new = cur & allowed
-        if not new:
+        from . import zone
+        d2 = self.d.copy()
+        zone.assume(fn, d2, cond, truth)
+        if d2.is_bot():
             return None
-        if new == cur:
+        if d2.key() == self.d.key():
             return self
-        rel = dict(self.rel)
-        rel[(a, b)] = new
-        return _Facts(rel, self.const)
-
-    def kill(self, var, value=None):
-        if not any(('v', var) in k for k in self.rel) and var not in self.const and value is None:
-            return self
-        rel = {k: v for k, v in self.rel.items() if ('v', var) not in k}
-        const = {k: v for k, v in self.const.items() if k != var}
-        if value is not None:
-            const[var] = value
-        return _Facts(rel, const)
+        return _Facts(d2)
 
     def step(self, fn, n):
-        """Facts after executing element node n."""
+        from . import zone
         k = n['k']
-        if k in ('BinaryOperator', 'CompoundAssignOperator') and n.get('op') in ('=', '+=', '-=', '*=', '/=', '%=', '|=', '&=', '^=', '<<=', '>>='):
-            l = fn.strip(fn.nodes[n['c'][0]])
-            if l is not None and l['k'] == 'DeclRefExpr' and 'var' in l:
-                val = None
-                if n['op'] == '=':
-                    r = fn.strip(fn.nodes[n['c'][1]])
-                    if r is not None and r['k'] == 'IntegerLiteral':
-                        val = int(r['val'])
-                return self.kill(l['var'], val)
+        if k not in ('BinaryOperator', 'CompoundAssignOperator', 'UnaryOperator', 'DeclStmt', 'CallExpr', 'CXXMemberCallExpr',
+                     'CXXOperatorCallExpr', 'CXXConstructExpr', 'CXXTemporaryObjectExpr'):
             return self
-        if k == 'UnaryOperator' and n.get('op') in ('++', '--'):
-            l = fn.strip(fn.nodes[n['c'][0]])
-            if l is not None and l['k'] == 'DeclRefExpr' and 'var' in l:
-                return self.kill(l['var'])
+        if k == 'BinaryOperator' and n.get('op') != '=':
             return self
-        if k == 'DeclStmt':
-            f = self
-            for d in n.get('decls', []):
-                if 'var' in d:
-                    val = None
-                    if 'init' in d:
-                        r = fn.strip(fn.nodes[d['init']])
-                        if r is not None and r['k'] == 'IntegerLiteral':
-                            val = int(r['val'])
-                    f = f.kill(d['var'], val)
-            return f
-        if k in ('CallExpr', 'CXXMemberCallExpr', 'CXXOperatorCallExpr', 'CXXConstructExpr', 'CXXTemporaryObjectExpr'):
-            pm = n.get('pmut')
-            f = self
-            for j, a in enumerate(fn.call_args(n)):
-                x = fn.strip(a)
-                if x is not None and x['k'] == 'DeclRefExpr' and 'var' in x:
-                    if pm is None or j >= len(pm) or pm[j] != 'C' or n.get('unresolved'):
-                        f = f.kill(x['var'])
-                elif x is not None and x['k'] == 'UnaryOperator' and x.get('op') == '&':
-                    y = fn.strip(fn.nodes[x['c'][0]])
-                    if y is not None and y['k'] == 'DeclRefExpr' and 'var' in y:
-                        f = f.kill(y['var'])
-            return f
-        return self
+        if k == 'UnaryOperator' and n.get('op') not in ('++', '--'):
+            return self
+        d2 = self.d.copy()
+        zone.step(fn, d2, n)
+        return _Facts(d2)
 
 
 def search(fn, starts, stop, target, include_entry=False, exit_is_target=None, normal_only=False, feas=False, assume=None):
